@@ -187,8 +187,10 @@ impl RADAU {
         // Adjust tolerances
         let expm = 2.0 / 3.0;
         let n = y.len();
-        let mut rtol = rtol;
-        let mut atol = atol;
+        // Expand to per-component vectors first: a scalar tolerance shares one cell for
+        // every index, so transforming it inside the loop would apply the map n times.
+        let mut rtol = Tolerance::Vector((0..n).map(|i| rtol[i]).collect());
+        let mut atol = Tolerance::Vector((0..n).map(|i| atol[i]).collect());
         for i in 0..n {
             let quot = atol[i] / rtol[i];
             rtol[i] = 0.1 * rtol[i].powf(expm);
